@@ -372,19 +372,35 @@ func ruleC07_5(c *Ctx) {
 	}
 	fn := c.A.F("sameOrigin")
 	deps := map[string]bool{}
-	for i, p := range fn.Params {
-		pi := i
-		pp := p
-		instrsOf(fn, func(in ssa.Instruction) {
-			if fa, ok := in.(*ssa.FieldAddr); ok && fa.X == pp {
+	// what is read of each URL, in the predicate itself or in a helper the URL is handed to
+	var collect func(f *ssa.Function, pp *ssa.Parameter, pi int, depth int)
+	collect = func(f *ssa.Function, pp *ssa.Parameter, pi int, depth int) {
+		if depth > 3 {
+			return
+		}
+		instrsOf(f, func(in ssa.Instruction) {
+			if fa, ok := in.(*ssa.FieldAddr); ok && fa.X == ssa.Value(pp) {
 				deps[fmt.Sprintf("p%d.%s", pi, fieldName(pp.Type(), fa.Field))] = true
 			}
 			if call := callOf(in); call != nil {
-				if sc := call.StaticCallee(); sc != nil && len(call.Args) > 0 && call.Args[0] == pp {
-					deps[fmt.Sprintf("p%d.%s()", pi, sc.Name())] = true
+				if sc := call.StaticCallee(); sc != nil {
+					for ai, a := range call.Args {
+						if a != ssa.Value(pp) {
+							continue
+						}
+						if ai == 0 {
+							deps[fmt.Sprintf("p%d.%s()", pi, sc.Name())] = true
+						}
+						if c.P.IsRepoFunc(sc) && len(sc.Blocks) > 0 && ai < len(sc.Params) {
+							collect(sc, sc.Params[ai], pi, depth+1)
+						}
+					}
 				}
 			}
 		})
+	}
+	for i, p := range fn.Params {
+		collect(fn, p, i, 0)
 	}
 	var dl []string
 	for k := range deps {
